@@ -109,7 +109,16 @@ class StmtMixin:
         self.ev(st.value)
 
     def ex_Return(self, st):
-        v = self.ev(st.value) if st.value is not None else SV(None, T.NONE)
+        if isinstance(st.value, ast.Name) and len(self.frames) == 1:
+            # `return x` of the function under contract: nothing runs afterwards, so reading a value that was also
+            # stored elsewhere (x embedded in a field, then returned) is the plain value - like `return self.f`
+            self._final_read = True
+            try:
+                v = self.ev(st.value)
+            finally:
+                self._final_read = False
+        else:
+            v = self.ev(st.value) if st.value is not None else SV(None, T.NONE)
         raise ReturnSignal(v)
 
     def ex_Break(self, st):
@@ -189,6 +198,9 @@ class StmtMixin:
             self.assign_name(target.id, v, line, ann)
             return
         if isinstance(target, (ast.Tuple, ast.List)):
+            if isinstance(v, SV) and v.ty.kind == "opt" and v.ty.args[0].kind == "tuple":
+                # unpacking an Optional tuple: `TypeError: cannot unpack non-iterable NoneType` unless it is a value
+                v = self.coerce(v, v.ty.args[0], line)
             if isinstance(v, PyTuple):
                 items = v.items
             elif isinstance(v, SV) and v.ty.kind == "tuple":
@@ -205,6 +217,12 @@ class StmtMixin:
             v = self.materialize(v)
         if isinstance(v, ClassRef):
             v = SV(self.w.type_const(v.name), T.TYPE)
+        if isinstance(v, PyTuple) and isinstance(target, ast.Attribute):
+            # a tuple stored into a declared field: takes the field's (tuple / Optional tuple) type
+            b_ = self.ev(target.value)
+            ft_ = self.w.field_ty(b_.ty.name, target.attr) if isinstance(b_, SV) and b_.ty.kind == "obj" else None
+            if ft_ is not None and (ft_.kind == "tuple" or (ft_.kind == "opt" and ft_.args[0].kind == "tuple")):
+                v = self.coerce(PyTuple([self.embed(x, line) if isinstance(x, SV) else x for x in v.items]), ft_, line)
         if not isinstance(v, SV):
             raise Unsupported(f"storing a {type(v).__name__} into an object (line {line})")
         if isinstance(target, ast.Attribute):
